@@ -721,6 +721,7 @@ pub fn run(ctx: &mut Ctx) {
     super::replay_corpus(ctx, replay);
     ctx.run_suite(&ForwardSuite);
     ctx.run_suite(&ForwardH3Suite);
+    ctx.run_suite(&super::c17stall::StallSuite);
     ctx.assume("chunk trailers are not generated (the statement's quantifier lists sizes and extensions only); on HTTP/1.1 the origin closes after its response so that the end of a chunked or close-delimited body is observable as the end of the connection");
     ctx.assume("HTTP/3 runs in real time against the real QUIC listener; 1xx responses are checked on HTTP/1.1 clients only, as the statement says");
     let _ = engine::hex(&[]);
@@ -730,6 +731,7 @@ pub fn replay(ctx: &mut Ctx, suite: &str, case: &Value) -> bool {
     match suite {
         "forwarded-exchange" => ctx.replay_suite(&ForwardSuite, case),
         "forwarded-exchange-h3" => ctx.replay_suite(&ForwardH3Suite, case),
+        "forwarded-stall-across-idle-tick" => ctx.replay_suite(&super::c17stall::StallSuite, case),
         _ => false,
     }
 }
